@@ -1,8 +1,122 @@
 (* C09 — exported theorems only: each is closed by [exact] and followed by Print Assumptions. *)
 From Coq Require Import List ZArith Bool.
-From Verif Require Import C09.Model C09.Spec C09.Proofs.
+From Verif Require Import C09.Model C09.Spec C09.Proofs_Agg C09.Proofs_Float C09.Proofs_Mono C09.Proofs.
+Import ListNotations.
 Open Scope Z_scope.
 
-Theorem c09_clamp_nonneg : forall x, 0 <= clamp0 x.
-Proof. exact clamp0_nonneg. Qed.
-Print Assumptions c09_clamp_nonneg.
+(* --- main theorem: for every input with non-negative capacities the observable of the model
+       (what Extract runs) passes the decision procedure that bin/check evaluates on the
+       implementation's observable, i.e. C09 (clauses as implemented) holds --- *)
+Theorem c09_batch_holds : forall b, input_wf b = true -> C09_holds b (run_batch b).
+Proof. exact run_batch_holds. Qed.
+Print Assumptions c09_batch_holds.
+
+Theorem c09_batch_code : forall b, input_wf b = true -> batch_code false b (run_batch b) = 0.
+Proof. exact run_batch_code. Qed.
+Print Assumptions c09_batch_code.
+
+Theorem c09_code_decides : forall strict b obs, batch_code strict b obs = 0 <-> batch_spec strict b obs.
+Proof. exact batch_code_spec. Qed.
+Print Assumptions c09_code_decides.
+
+(* --- refinement: the accumulator loop equals the from-scratch sums --- *)
+Theorem c09_aggregate_refines : forall pods dang,
+  let a := aggregate pods dang in
+  let um := sumZ (map orphan pods) + sumZ (map dang_amount dang) in
+  a_req a = sumZ (map (charge 2) pods) /\
+  a_used a = sumZ (map (charge 1) pods) + um /\
+  a_max a = sumZ (map (charge 3) pods) + um /\
+  a_dang a = um.
+Proof. exact aggregate_spec. Qed.
+Print Assumptions c09_aggregate_refines.
+
+Theorem c09_closed_form : forall d, batch_dim d = with_thr (d_thr d) (clamp0 (upper d)).
+Proof. exact batch_dim_closed. Qed.
+Print Assumptions c09_closed_form.
+
+(* --- the bounds, for any scope (node or NUMA zone) and dimension --- *)
+Theorem c09_nonneg : forall d, thr_nonneg d -> 0 <= batch_dim d.
+Proof. exact batch_dim_nonneg. Qed.
+Print Assumptions c09_nonneg.
+
+Theorem c09_upper : forall d, batch_dim d <= Z.max 0 (upper d).
+Proof. exact batch_dim_upper. Qed.
+Print Assumptions c09_upper.
+
+Theorem c09_cap : forall d c, d_thr d = Some c -> batch_dim d <= c.
+Proof. exact batch_dim_cap. Qed.
+Print Assumptions c09_cap.
+
+Theorem c09_cap_term_nonneg : forall thr cap c, 0 <= cap -> thr_term thr cap = Some c -> 0 <= c.
+Proof. exact thr_term_nonneg. Qed.
+Print Assumptions c09_cap_term_nonneg.
+
+(* the bound by the letter of the property text (always the larger of system usage and
+   reservation): whenever the request policy is not in force, or system usage is within the
+   reservation; whole observable: whenever memoryCalculatePolicy is not "request" *)
+Theorem c09_upper_text : forall d,
+  (d_policy d =? 2) = false \/ d_sys d <= d_reserved d -> batch_dim d <= Z.max 0 (upper_text d).
+Proof. exact batch_dim_text. Qed.
+Print Assumptions c09_upper_text.
+
+Theorem c09_batch_text_holds : forall b,
+  input_wf b = true -> (eff_policy_mem (s_mem_policy (b_s b)) =? 2) = false ->
+  C09_text_holds b (run_batch b).
+Proof. exact run_batch_text_holds. Qed.
+Print Assumptions c09_batch_text_holds.
+
+(* ... and refuted under memoryCalculatePolicy = "request" (finding C09-request-policy-system-usage) *)
+Theorem c09_text_request_refuted :
+  input_wf witness_request_sys = true /\
+  run_batch witness_request_sys = [0; 1000; 100; 1000; 100; 0] /\
+  ~ C09_text_holds witness_request_sys (run_batch witness_request_sys).
+Proof. exact text_request_refuted. Qed.
+Print Assumptions c09_text_request_refuted.
+
+(* --- raising a consumption input never raises the published amount --- *)
+Theorem c09_antitone_policy :
+  forall policy thr cap margin margin' reserved reserved' sys sys' a a',
+  margin <= margin' -> reserved <= reserved' -> sys <= sys' -> agg_le a a' ->
+  by_policy policy thr cap margin' reserved' sys' a' <= by_policy policy thr cap margin reserved sys a.
+Proof. exact by_policy_antitone. Qed.
+Print Assumptions c09_antitone_policy.
+
+Theorem c09_antitone_dim : forall d e, dim_le d e -> batch_dim e <= batch_dim d.
+Proof. exact batch_dim_antitone. Qed.
+Print Assumptions c09_antitone_dim.
+
+Theorem c09_antitone : forall a b, input_leb a b = true ->
+  batch_dim (node_cpu b) <= batch_dim (node_cpu a) /\ batch_dim (node_mem b) <= batch_dim (node_mem a).
+Proof. exact node_antitone. Qed.
+Print Assumptions c09_antitone.
+
+(* --- pods that have not reported metrics yet are charged at their request --- *)
+Theorem c09_charge_request : forall d ps1 ps2 p,
+  charged p = true -> v_has p = false ->
+  hp_total (with_pods d (ps1 ++ p :: ps2)) = hp_total (with_pods d (ps1 ++ ps2)) + v_req p.
+Proof. exact charge_request_insert. Qed.
+Print Assumptions c09_charge_request.
+
+(* --- stale node metrics withdraw the resource --- *)
+Theorem c09_degrade : forall b, stale b = true -> run_batch b = withdrawn.
+Proof. exact run_batch_stale. Qed.
+Print Assumptions c09_degrade.
+
+Theorem c09_stale_iff : forall b,
+  stale b = true <-> b_age b < 0 \/ s_degrade (b_s b) * 60 < b_age b.
+Proof. exact stale_iff. Qed.
+Print Assumptions c09_stale_iff.
+
+(* --- NUMA zones obey the same bounds per zone --- *)
+Theorem c09_zone : forall b n zs, forallb zone_nonneg zs = true ->
+  forall i, zones_spec false b n i zs (zones_out b n i zs).
+Proof. exact zones_out_spec. Qed.
+Print Assumptions c09_zone.
+
+(* --- non-vacuity --- *)
+Example c09_wf_inhabited : input_wf witness_request_sys = true.
+Proof. reflexivity. Qed.
+Example c09_input_le_inhabited :
+  input_leb witness_request_sys
+    (mkB (mkStrategy 1 2 100 100 (-1) (-1) 15) 0 1000 100 1000 100 false 0 0 0 0 60 [] [] [] []) = true.
+Proof. reflexivity. Qed.
